@@ -35,6 +35,8 @@ def cases(tier, salts):
                        [p for p in itertools.product((1, 2, 3), repeat=n)][:: (3 if tier == "quick" else 1)]
             if tier == "quick" and salt != 0:
                 pats = pats[::4]
+            if tier == "thorough" and salt >= 2 and n >= 3:
+                pats = pats[::4]          # the full pattern products for n >= 3 on two salts, every fourth pattern on the others
             npts = sorted(set([n + 1, n + 2, 2 * n + 1])) if (tier == "thorough" or n <= 2) else [n + 1, 2 * n + 1]
             for cond in conds:
                 for idx in idxs:
